@@ -282,3 +282,75 @@ func lineOf(info *types.Info, pos token.Pos) int {
 	}
 	return lineFset.Position(pos).Line
 }
+
+// ruleIndexPastEnd: an index expression X[len(X)], X[len(X)+k] (k ≥ 0) or X[len(X)-k] (k ≤ 0) is out of range by
+// construction — it panics whenever it is evaluated. One obligation per package in scope, reporting the first
+// such expression (the "last element" idiom X[len(X)-1] is what every such site of the repository means).
+func ruleIndexPastEnd(r *Run, rule string, pkgs ...string) {
+	for _, rel := range pkgs {
+		pkg := r.P.Pkgs[rel]
+		if pkg == nil {
+			continue
+		}
+		info := pkg.TypesInfo
+		bad := ""
+		var bpos token.Pos
+		n := 0
+		for _, f := range pkg.Syntax {
+			if strings.HasSuffix(r.P.Fset.Position(f.Pos()).Filename, "_test.go") {
+				continue
+			}
+			bpos0 := f.Pos()
+			if bpos == 0 {
+				bpos = bpos0
+			}
+			ast.Inspect(f, func(x ast.Node) bool {
+				ie, ok := x.(*ast.IndexExpr)
+				if !ok {
+					return true
+				}
+				if tv, ok := info.Types[ie.X]; ok {
+					switch tv.Type.Underlying().(type) {
+					case *types.Slice, *types.Array, *types.Basic:
+					default:
+						return true
+					}
+				}
+				isLenOf := func(e ast.Expr) bool {
+					c, ok := ast.Unparen(e).(*ast.CallExpr)
+					if !ok || len(c.Args) != 1 {
+						return false
+					}
+					id, ok := ast.Unparen(c.Fun).(*ast.Ident)
+					if !ok {
+						return false
+					}
+					b, ok := info.ObjectOf(id).(*types.Builtin)
+					return ok && b.Name() == "len" && chainKey(c.Args[0]) != "" && chainKey(c.Args[0]) == chainKey(ie.X)
+				}
+				idx := ast.Unparen(ie.Index)
+				past := false
+				if isLenOf(idx) {
+					n++
+					past = true
+				} else if be, ok := idx.(*ast.BinaryExpr); ok && (be.Op == token.ADD || be.Op == token.SUB) && isLenOf(be.X) {
+					n++
+					if k, isC := ConstInt(info, be.Y); isC && ((be.Op == token.ADD && k >= 0) || (be.Op == token.SUB && k <= 0)) {
+						past = true
+					}
+				}
+				if past && bad == "" {
+					bad, bpos = "the index "+ExprStr(ie.Index)+" of "+ExprStr(ie.X)+" is past the end by construction: this expression panics whenever it is evaluated", ie.Pos()
+				}
+				return true
+			})
+		}
+		name := rel
+		if name == "" {
+			name = "coercion"
+		}
+		if n > 0 {
+			r.Check(rule, "index-relative-to-len-in-range:"+name, bpos, bad == "", "%s", orOK(bad, "every index written relative to len() stays below it"))
+		}
+	}
+}
